@@ -138,6 +138,8 @@ class Seqs:
 
     def reduce_mod(self, k, W):
         """k mod W as an affine form: k - W*m for the integer m with 0 <= k - W*m < W"""
+        if self.ent_le(const(0), k) and self.ent_le(k, const(W)):
+            return k                  # a rotation by the full width is the identity, like the split at W
         for m in range(0, 130):
             if self.ent_le(const(W * m), k) and self.ent_le(k, const(W * m + W - 1)):
                 return k - const(W * m)
@@ -255,6 +257,8 @@ class Seqs:
             name, w = self.sources[t]
             return [("S", name, const(0), const(w))]
         k = t[0]
+        if k == "havoc" and getattr(self, "own_rest", None) is not None and t[-1] == "buffer'":
+            return self.own_rest          # the buffer after an own-method call whose contract the caller supplied
         W = self.width(t)
         if k == "const":
             if isinstance(t[1], bool) or not isinstance(t[1], int) or W is None:
@@ -274,6 +278,9 @@ class Seqs:
         if k == "cast":
             s = self.seq(t[1])
             ws, wt = self.width(t[1]), num.cfg.width(t[2])
+            if ws is None and s is not None:
+                tot = self.total(s)
+                ws = int(tot.k) if tot.is_const() else None
             if s is None or ws is None or wt is None:
                 return None
             return self.resize(s, ws, wt)
@@ -282,6 +289,9 @@ class Seqs:
                 return self.seq(t[2])
             if t[1] in ("rotate_right", "rotate_left") and len(t) > 3:
                 s, kk, w = self.seq(t[2]), self.aff(t[3]), self.width(t[2])
+                if w is None and s is not None:
+                    tot = self.total(s)
+                    w = int(tot.k) if tot.is_const() else None
                 if s is None or kk is None or w is None:
                     return None
                 return self.rotr(s, kk, w) if t[1] == "rotate_right" else self.rotl(s, kk, w)
@@ -300,6 +310,9 @@ class Seqs:
                     kk = kk + k2
                     inner = inner[2]
                 s = self.seq(inner)
+                if w is None and s is not None:
+                    tot = self.total(s)
+                    w = int(tot.k) if tot.is_const() else None
                 if s is None or kk is None or w is None:
                     return None
                 return self.shl(s, kk, w) if op.startswith("Shl") else self.shr(s, kk, w)
